@@ -9,7 +9,10 @@
 (*   name : string          num : int            list : []string            *)
 (*   sub  : *KNode (Nil or node)                 subs : []*KNode             *)
 (*   vals : []KNode         any : interface{} (Nil, [z, t|->"str", v],       *)
-(*                                 [z, t|->"node", v], [z, t|->"ptr", v])    *)
+(*                                 [z, t|->"node", v], [z, t|->"ptr", v],    *)
+(*                                 [z, t|->"alt", v]: a value of another     *)
+(*                                 struct type, KAlt, that has the fields    *)
+(*                                 list, num, name, sub only, in this order) *)
 (*   pp   : **KNode (Nil, [z, p |-> Nil or node]) nest : [][]string          *)
 (*   m    : map[string]string                    emb  : promoted field of an *)
 (*          embedded *KEmb (Nil = embedded pointer is nil, or [z, s])        *)
@@ -64,16 +67,22 @@ Deref(c) ==
     [] c.k = "pptr" -> IF c.v.z THEN [k |-> "invalid", v |-> 0] ELSE PtrC(c.v.p)
     [] c.k = "iface" -> IF c.v.z THEN [k |-> "invalid", v |-> 0]
                         ELSE IF c.v.t = "str" THEN StrC(c.v.sv)
-                        ELSE IF c.v.t = "node" THEN NodeC(c.v.v) ELSE PtrC(c.v.v)
+                        ELSE IF c.v.t = "node" THEN NodeC(c.v.v)
+                        ELSE IF c.v.t = "alt" THEN [k |-> "altnode", v |-> c.v.v] ELSE PtrC(c.v.v)
     [] OTHER -> c
+
+\* struct values: KNode ("node") and KAlt ("altnode", only four of the fields)
+IsStruct(c) == c.k \in {"node", "altnode"}
+AltFields == {"name", "num", "list", "sub"}
+HasField(c, f) == f # "?" /\ (c.k = "node" \/ f \in AltFields)
 
 RECURSIVE KeysAt(_, _, _)
 KeysAt(c0, path, i) ==
   LET c == Deref(c0) IN
   IF i > Len(path) THEN (IF c.k = "str" THEN Ok(<<c.v>>) ELSE Err)
-  ELSE IF c.k # "node" THEN Err
+  ELSE IF ~IsStruct(c) THEN Err
   ELSE LET f == Canon(path[i])
-           fc == IF f = "?" THEN [k |-> "invalid", v |-> 0] ELSE FieldCell(c.v, f)
+           fc == IF ~HasField(c, f) THEN [k |-> "invalid", v |-> 0] ELSE FieldCell(c.v, f)
        IN IF fc.k # "slice" THEN KeysAt(fc, path, i + 1)
           ELSE LET RECURSIVE Fan(_, _)
                    Fan(j, acc) == IF j > Len(fc.v) THEN Ok(acc)
@@ -93,10 +102,10 @@ Keys(top, n, path) == IF path = <<>> THEN KeysAt(TopCell(top, n), <<"">>, 1) ELS
 PanicsInReflect(top, n, path) ==
   LET RECURSIVE Hit(_, _)
       Hit(c0, i) == LET c == Deref(c0) IN
-                    IF i > Len(path) \/ c.k # "node" THEN FALSE
+                    IF i > Len(path) \/ ~IsStruct(c) THEN FALSE
                     ELSE LET f == Canon(path[i]) IN
-                         IF f = "emb" /\ c.v.emb.z THEN TRUE
-                         ELSE IF f = "?" THEN FALSE
+                         IF f = "emb" /\ c.k = "node" /\ c.v.emb.z THEN TRUE
+                         ELSE IF ~HasField(c, f) THEN FALSE
                          ELSE LET fc == FieldCell(c.v, f) IN
                               IF fc.k # "slice" THEN Hit(fc, i + 1)
                               ELSE \E j \in DOMAIN fc.v : (\A j2 \in 1..(j-1) : KeysAt(fc.v[j2], path, i + 1).ok) /\ Hit(fc.v[j], i + 1)
@@ -111,6 +120,7 @@ Leaf(name, list, any, emb) == [z |-> FALSE, name |-> name, num |-> 0, list |-> l
 AStr == [z |-> FALSE, t |-> "str", sv |-> "s"]
 ANode(n) == [z |-> FALSE, t |-> "node", v |-> n]
 APtr(n) == [z |-> FALSE, t |-> "ptr", v |-> n]
+AAlt(n) == [z |-> FALSE, t |-> "alt", v |-> n]
 PP(n) == [z |-> FALSE, p |-> n]
 L1 == Leaf("a", <<"x">>, Nil, E("e"))
 L2 == Leaf("b", <<>>, AStr, Nil)
@@ -119,7 +129,7 @@ L3 == Leaf("c", <<"y", "z">>, Nil, E("e"))
 Leaves == {L1, L2, L3}
 Subs == {<<>>, <<L1>>, <<L1, Nil>>, <<Nil, L1>>, <<L2, L3>>, <<L3, L2, L1>>, <<Nil>>}
 Vals == {<<>>, <<L1>>, <<L3, L2>>, <<L2, L3>>, <<L1, L2, L3>>}
-Anys == {Nil, AStr, ANode(L1), APtr(L3), APtr(Nil)}
+Anys == {Nil, AStr, ANode(L1), APtr(L3), APtr(Nil), AAlt(L1), AAlt(L3)}
 PPs == {Nil, PP(Nil), PP(L1)}
 Nests == {<<>>, <<<<"p">>, <<>>>>}
 
